@@ -4,6 +4,7 @@ From NV Require Import Lib.Res Gen.Fat Fat.Spec.
 From NV Require Import FatTable.Model FatTable.ProofsBase FatTable.ProofsSet32 FatTable.Proofs.
 From NV Require Import FatRead.Model FatRead.ProofsBase FatRead.ProofsGeom FatRead.ProofsRead FatRead.ProofsTime FatRead.Proofs.
 From NV Require FatDir.Model FatDir.ProofsBase FatDir.ProofsSpec.
+From NV Require FatVol.Model FatVol.Spec FatVol.ProofsInv FatVol.ProofsWalk FatVol.ProofsDots FatVol.ProofsEx FatVol.ProofsDotsEx.
 Import ListNotations.
 Open Scope N_scope.
 
@@ -56,6 +57,35 @@ Theorem C03_timestamp_spec :
   forall date time cs : N, decode_timestamp_fields date time cs = (1980 + (date / 2 ^ 9) mod 2 ^ 7, (date / 2 ^ 5) mod 2 ^ 4, date mod 2 ^ 5, (time / 2 ^ 11) mod 2 ^ 5, (time / 2 ^ 5) mod 2 ^ 6, 2 * (time mod 2 ^ 5) + cs * 10 / 1000, (cs * 10) mod 1000 * 1000).
 Proof. exact FatRead.ProofsTime.timestamp_spec. Qed.
 Print Assumptions C03_timestamp_spec.
+
+(* FatPath resolution of ANY component list -- "." and ".." included, which _resolve looks up as the dot entries stored in each sub-directory -- on a consistent volume is the walk over the plain tree the volume holds with a stack of the directories passed: "." stays, ".." pops, and at the root neither exists *)
+Theorem C03_path_resolution_refines :
+  forall (upper : Model.name -> Model.name) (V : Model.vparams) (s : Model.vol) (parts : list Model.name), ProofsInv.VolInv upper V s -> ProofsWalk.tilde_free upper parts -> match Model.resolved upper s parts with | Ok Model.RNone => Spec.twalkd upper [] (Spec.abs_tree s) parts = Ok None | Ok (Model.RRoot as r) | Ok (Model.RFound _ _ as r) => Spec.twalkd upper [] (Spec.abs_tree s) parts = Ok (Some (ProofsWalk.cur_node s r)) | Err x => x = NotADirectory /\ Spec.twalkd upper [] (Spec.abs_tree s) parts = Err NotADirectory end.
+Proof. exact FatVol.ProofsDots.resolved_refines. Qed.
+Print Assumptions C03_path_resolution_refines.
+
+(* whatever a path spells, what it reaches is a node of this volume s tree *)
+Theorem C03_path_resolution_confined :
+  forall (upper : Model.name -> Model.name) (V : Model.vparams) (s : Model.vol) (parts : list Model.name) (r : Model.rres), ProofsInv.VolInv upper V s -> ProofsWalk.tilde_free upper parts -> Model.resolved upper s parts = Ok r -> r <> Model.RNone -> Spec.reach (Spec.abs_tree s) (ProofsWalk.cur_node s r).
+Proof. exact FatVol.ProofsDots.resolved_confined. Qed.
+Print Assumptions C03_path_resolution_confined.
+
+Theorem C03_dot_skipped :
+  forall (upper : Model.name -> Model.name) (p : Spec.node) (stk : list Spec.node) (ch : list (Model.name * Spec.node)) (h : Model.name) (r : list Model.name), upper h = [46] -> Spec.twalkd upper (p :: stk) (Spec.Dir ch) (h :: r) = Spec.twalkd upper (p :: stk) (Spec.Dir ch) r.
+Proof. exact FatVol.ProofsDots.twalkd_dot. Qed.
+Print Assumptions C03_dot_skipped.
+
+(* lexical normalisation is sound below the root: "x/.." cancels when x names a directory *)
+Theorem C03_dotdot_cancels :
+  forall (upper : Model.name -> Model.name) (stk : list Spec.node) (ch : Spec.kids) (x h : Model.name) (r : list Model.name) (c : list (Model.name * Spec.node)), stk = [] \/ upper x <> [46] /\ upper x <> [46; 46] -> Spec.tfind upper (upper x) ch = Some (Spec.Dir c) -> upper h = [46; 46] -> Spec.twalkd upper stk (Spec.Dir ch) (x :: h :: r) = Spec.twalkd upper stk (Spec.Dir ch) r.
+Proof. exact FatVol.ProofsDots.twalkd_dotdot. Qed.
+Print Assumptions C03_dotdot_cancels.
+
+(* non-vacuity: a volume grown by a guarded history is in VolInv; /d/e/../f.txt reaches the 700-byte file, "." and ".." at the root reach nothing, a file is not a directory *)
+Theorem C03_dots_example :
+  ProofsInv.VolInv ProofsEx.up ProofsEx.V0 ProofsDotsEx.s_d /\ (exists (i : N) (e : Model.entry), Model.resolved ProofsEx.up ProofsDotsEx.s_d [ProofsEx.n_d; ProofsDotsEx.n_e; ProofsDotsEx.dotdot; ProofsEx.n_f] = Ok (Model.RFound i e) /\ Model.e_size e = 700 /\ Model.is_dir e = false) /\ Spec.twalkd ProofsEx.up [] (Spec.abs_tree ProofsDotsEx.s_d) [ProofsEx.n_d; ProofsDotsEx.n_e; ProofsDotsEx.dotdot; ProofsEx.n_f] = Ok (Some (Spec.File 700)) /\ Model.resolved ProofsEx.up ProofsDotsEx.s_d [ProofsEx.n_d; ProofsDotsEx.n_e; ProofsDotsEx.dotdot; ProofsEx.n_f] = Model.resolved ProofsEx.up ProofsDotsEx.s_d [ProofsEx.n_d; ProofsDotsEx.dot; ProofsDotsEx.dot; ProofsEx.n_f] /\ Spec.twalkd ProofsEx.up [] (Spec.abs_tree ProofsDotsEx.s_d) [ProofsEx.n_d; ProofsDotsEx.dot; ProofsDotsEx.n_e; ProofsDotsEx.dotdot] = Spec.twalkd ProofsEx.up [] (Spec.abs_tree ProofsDotsEx.s_d) [ProofsEx.n_d] /\ Model.resolved ProofsEx.up ProofsDotsEx.s_d [ProofsDotsEx.dotdot] = Ok Model.RNone /\ Model.resolved ProofsEx.up ProofsDotsEx.s_d [ProofsDotsEx.dot; ProofsEx.n_d] = Ok Model.RNone /\ Model.resolved ProofsEx.up ProofsDotsEx.s_d [ProofsEx.n_d; ProofsDotsEx.dotdot; ProofsDotsEx.dotdot] = Ok Model.RNone /\ Model.resolved ProofsEx.up ProofsDotsEx.s_d [ProofsEx.n_d; ProofsEx.n_f; ProofsDotsEx.dotdot] = Err NotADirectory /\ Spec.reach (Spec.abs_tree ProofsDotsEx.s_d) (Spec.File 700).
+Proof. exact FatVol.ProofsDotsEx.FV_dots_example. Qed.
+Print Assumptions C03_dots_example.
 
 (* the directory decoder of the code (_group_entries / _split_entries / _join_lfn_entries) = the specification decoder on every directory region whose long-name runs are valid or absent: same names, aliases, raw entries, offsets, no orphans *)
 Theorem C03_directory_decode_spec :
